@@ -277,6 +277,45 @@ def check_empty(U, a, enc, hist, acc):
         U.restore(enc)
 
 
+def check_overlapping(U, a, enc, hist, acc):
+    """Selections that reach a task twice (a task together with one of its ancestors - what a filter over all tasks returns when a
+    summary and its child both match - or the same task named twice). The statement fixes "exactly the given tasks and their
+    descendants" but not where the nested one hangs in the copy, so only this much is demanded: the call returns a copy (it does not
+    raise), the copy holds each selected task exactly once, as new objects owned by the copy, and the source is unchanged."""
+    X = U.wbs[0]
+    members = a.members(0)
+    sels = [(r, r) for r in members[:2]]
+    for x in members:
+        for y in a.ancestors(x):
+            if y in members:
+                sels.append((y, x))
+                sels.append((x, y))
+    for sel in sels[:8]:
+        case = {'universe': U.name, 'readable_history': [bfs.O.describe(h) for h in hist],
+                'call': 'subtree([%s])' % ', '.join('t%d' % i for i in sel)}
+        before = obs_members(U, 0)
+        acc.count('copies')
+        acc.count('premise:overlapping-selection')
+        try:
+            cw = X.subtree([U.tasks[i] for i in sel])
+        except Exception as ex:  # noqa
+            acc.violation('C10', f'subtree/raised-{type(ex).__name__}/overlapping-selection', f'{case["call"]} raised {type(ex).__name__}: {ex}', case)
+            U.restore(enc)
+            continue
+        want = sorted({U.ids[v] for r in sel for v in a.subtree(r)}, key=repr)
+        got = sorted([t.id for t in cw.tasks], key=repr)
+        src_objs = {id(t) for t in U.tasks}
+        if got != want:
+            acc.violation('C10', 'subtree/members-differ/overlapping-selection', f'{case["call"]}: copy holds ids {got}, the selection and its '
+                          f'descendants are {want}', case)
+        elif any(id(t) in src_objs for t in cw.tasks) or any(t.wbs is not cw for t in cw.tasks):
+            acc.violation('C10', 'subtree/not-new-objects-or-owner/overlapping-selection', f'{case["call"]}: copy shares task objects with the '
+                          'source or a task does not report the copy as owner', case)
+        if obs_members(U, 0) != before:
+            acc.violation('C10', 'subtree/source-changed-by-call/overlapping-selection', 'the source changed', case)
+        U.restore(enc)
+
+
 def _work(chunk):
     U, states = _U, _STATES
     acc = runtime.Acc()
@@ -290,6 +329,8 @@ def _work(chunk):
         if not members:
             continue
         acc.count('states_with_members')
+        check_overlapping(U, a, enc, hist, acc)
+        U.restore(enc)
         check_copy(U, a, enc, hist, None, 'list', acc)
         for sel in antichains(a, members):
             U.restore(enc)
